@@ -31,8 +31,8 @@ class AMachine(Machine):
     gcc_share = 0.12           # share of runs on the gcc backend
     features = ["mem", "straddle", "stack", "call", "loop", "branch", "rep", "indirect"]
     actors = []
-    quick_runs = 700
-    thorough_runs = 9000
+    quick_runs = 420
+    thorough_runs = 7000
     need_host_writes = False
     both_backends = False
 
